@@ -9,7 +9,8 @@
 impl<T> TrySendError<T> { #[verifier::external_body] pub fn into_send_error(self) -> (r: SendError) { unimplemented!() } }
 pub uninterp spec fn queue_cap(q: int) -> Option<usize>;       // the capacity the queue was created with (None: unbounded)
 pub uninterp spec fn pid_of<T>(t: &T) -> int;                 // ghost identity of a payload value
-impl<T> OwnView for MpscSender<T> { open spec fn own(&self) -> Own { own_none() } }
+// a raw mpsc sender keeps the queue open for as long as it lives: in the ownership view it counts like a strong handle of that queue
+impl<T> OwnView for MpscSender<T> { open spec fn own(&self) -> Own { Own { none: false, chan: self.q(), s_tx: true, s_force: true, w_tx: false, w_force: false, mixed: false } } }
 impl<T> OwnView for MpscReceiver<T> { open spec fn own(&self) -> Own { own_none() } }
 impl<T> MpscSender<T> {
     pub uninterp spec fn q(&self) -> int;
